@@ -3,7 +3,7 @@
 T=$1; shift
 D=${D:-/var/tmp/rv-dev}
 mkdir -p $D
-rsync -a --delete --exclude target --exclude .git --exclude .cargo /repo/ $D/ 
+rm -rf $D/src $D/tests; git -C /repo archive HEAD | tar -x -C $D
 mkdir -p $D/.cargo; printf '[net]\noffline = true\n' > $D/.cargo/config.toml
 for f in /verif/contracts/*.kani.rs; do b=$(basename $f .kani.rs); cat $f >> $D/src/$b.rs; done
 cd $D
